@@ -20,6 +20,7 @@ from ..flow import arg_origins, origins
 from ..mir import op_const, op_local, try_edges
 from ..util import POLL, agg_assigns, bool_edges, call_true_false_edges, polls, result_return_kinds, switches_on, unreachable_without, where
 from .c01 import shrinkers_in
+from .guards import body_family, closure_capture_origins, closure_users
 
 LEVEL = "other"
 TECHNIQUE = ("CFG rules on hooks::call / call_single (sequential await, first-error exit, failure condition), provenance with "
@@ -54,26 +55,35 @@ def check(ctx):
     R1 = ctx.rule("R1", "hooks::call: in slice order, filtered by type, one awaited call_single at a time, first error aborts")
     cb = prog.async_body(CALL)
     its = [c for c in cb.calls_to("core::slice::<impl [T]>::iter") if arg_origins(c, 0).has_leaf("upvar:1")]
-    fl = cb.calls_to("core::iter::traits::iterator::Iterator::filter")
     cs = cb.calls_to(SINGLE)
     ctx.floor(R1, "iteration over the hooks parameter", len(its), 1)
-    ctx.floor(R1, "type filter", len(fl), 1)
     ctx.floor(R1, "call_single call", len(cs), 1)
     for c in cs:
         h = arg_origins(c, 2)
         ctx.require(R1, h.has_leaf("upvar:1") and not [v for v in shrinkers_in(h) if not v.endswith("::filter")], c.where(), "call_single receives each element of `hooks` in iteration order (%s)" % shrinkers_in(h), [CALL, "order"])
         ctx.require(R1, arg_origins(c, 1).has_leaf("upvar:2"), c.where(), "… with the event's data", [CALL, "data"])
-    for c in fl:
-        for g in c.gbodies:
-            gb = prog.body(g)
-            if gb is None:
+    # the type test `hook.hook_type.contains(&hook_type)`: as the predicate of a .filter(..) on the iteration, or as a test in the
+    # loop whose true edge is the only way to call_single
+    n_tests = 0
+    for fb in body_family(prog, CALL + "::{closure#0}"):
+        for x in fb.calls_to("std::collections::hash::set::HashSet::contains"):
+            a0, a1 = arg_origins(x, 0), arg_origins(x, 1)
+            if ("acmed::hooks::Hook", "hook_type") not in a0.fields:
                 continue
-            cont = gb.calls_to("std::collections::hash::set::HashSet::contains")
-            good = False
-            for x in cont:
-                a0, a1 = arg_origins(x, 0), arg_origins(x, 1)
-                good = ("acmed::hooks::Hook", "hook_type") in a0.fields and a1.has_leaf("upvar:0")
-            ctx.require(R1, good, "%s:%s" % (gb.file, gb.line), "a hook is kept iff its type set contains the event type", [CALL, "type-filter"])
+            n_tests += 1
+            if fb is cb:
+                good = a1.has_leaf("upvar:") and ("acmed::hooks::Hook", "hook_type") not in a1.fields
+                t, f = call_true_false_edges(cb, x)
+                okk, hit = unreachable_without(cb, [c.bb for c in cs], removed_edges=t)
+                ctx.require(R1, good and bool(t) and okk, x.where(), "a hook is run iff its type set contains the event type", [CALL, "type-filter"])
+            else:
+                users = closure_users(cb, fb.key)
+                ret = origins(fb, {"l": 0, "p": []})
+                good = a1.has_leaf("upvar:") and any(u.name.endswith("::filter") for u in users) and "unop:Not" not in ret.via and any(y.bb == x.bb for y in ret.calls)
+                hs = [arg_origins(c, 2) for c in cs]
+                good = good and all(("closure:%s" % fb.key) in h.leaves for h in hs)
+                ctx.require(R1, good, "%s:%s" % (fb.file, fb.line), "a hook is kept iff its type set contains the event type", [CALL, "type-filter"])
+    ctx.floor(R1, "type filter", n_tests, 1)
     single_polls = polls(cb, SINGLE)
     ctx.floor(R1, "await of call_single", len(single_polls), 1)
     for c in cs:
@@ -86,41 +96,7 @@ def check(ctx):
     ctx.require(R1, not conc, conc[0].where() if conc else "acmed/src/hooks.rs", "no concurrency primitive in the hook layer", [CALL, "concurrency"])
 
     R2 = ctx.rule("R2", "call_single fails iff the exit status is unsuccessful and allow_failure is not set; the child is awaited")
-    sb = prog.async_body(SINGLE)
-    succ = sb.calls_to("std::process::ExitStatus::success")
-    ctx.floor(R2, "ExitStatus::success test", len(succ), 1)
-    okb, errb, fwd = result_return_kinds(sb)
-    af = [i for i in sb.live_blocks() if sb.term(i)["t"] == "switch" and sb.term(i)["dty"] == "bool" and ("acmed::hooks::Hook", "allow_failure") in origins(sb, sb.term(i)["discr"]).fields]
-    ctx.floor(R2, "branch on hook.allow_failure", len(af), 1)
-    if succ and af:
-        s_t, s_f = call_true_false_edges(sb, succ[0])
-        af_edges_false = []
-        af_edges_true = []
-        for i in af:
-            sl = origins(sb, sb.term(i)["discr"])
-            neg = "unop:Not" in sl.via
-            t, f = bool_edges(sb, i)
-            if neg:
-                t, f = f, t
-            af_edges_false.append((i, f))
-            af_edges_true.append((i, t))
-        st_polls = polls(sb, "async_process::Child::status")
-        st_any = [p.bb for p in sb.calls if p.fn == POLL and p.res and "async_process" in p.res and p.bb in sb.live_blocks()]
-        fail_blocks = [i for i in errb if succ[0].bb in sb.reachable(0) and i in sb.reachable_after(succ[0].bb)]
-        ctx.floor(R2, "failure result after the status test", len(fail_blocks), 1)
-        good, hit = unreachable_without(sb, fail_blocks, removed_edges=s_f, start=succ[0].bb)
-        ctx.require(R2, bool(s_f) and good, succ[0].where(), "the status-based failure is reached only when success() is false", [SINGLE, "fail-on-success"])
-        good, hit = unreachable_without(sb, fail_blocks, removed_edges=af_edges_false, start=succ[0].bb)
-        ctx.require(R2, bool(af_edges_false) and good, succ[0].where(), "… and only when allow_failure is false", [SINGLE, "fail-despite-allow"])
-        for (i, tg) in af_edges_false:
-            if i in sb.reachable_after(succ[0].bb):
-                r = sb.reachable([tg])
-                ctx.require(R2, not (set(okb) & r), where(sb, i), "an unsuccessful status without allow_failure never yields Ok", [SINGLE, "hard-failure-ignored"])
-        for (sbb, tg) in s_t:
-            r = sb.reachable([tg], removed_edges=[])
-            ctx.require(R2, not (set(fail_blocks) & r), where(sb, sbb), "a successful status never yields the failure result", [SINGLE, "success-fails"])
-        good, hit = unreachable_without(sb, okb, removed_nodes=st_any)
-        ctx.require(R2, bool(st_any) and good, "%s:%s" % (sb.file, sb.line), "call_single returns Ok only after the child's exit status was awaited", [SINGLE, "not-awaited"])
+    status_rule(ctx, R2)
 
     order_rules(ctx)
     file_bracketing(ctx)
@@ -293,20 +269,30 @@ def template_rules(ctx):
     R7 = ctx.rule("R7", "args/stdin/stdin_str/stdout/stderr are templates, cmd is not; child env = hook data env")
     sb = prog.async_body(SINGLE)
     H = "acmed::hooks::Hook"
-    rt = sb.calls_to("acmed::template::render_template")
     rendered = set()
-    for c in rt:
-        a = arg_origins(c, 0)
-        rendered |= {f for ad, f in a.fields if ad == H}
-        d = arg_origins(c, 1)
-        ctx.require(R7, d.has_leaf("upvar:1"), c.where(), "templates are rendered with the event's hook data", [SINGLE, "template-data"])
+    rt_closures = set()
+    for fb in body_family(prog, SINGLE + "::{closure#0}"):
+        for c in fb.calls_to("acmed::template::render_template"):
+            a = arg_origins(c, 0)
+            d = arg_origins(c, 1)
+            if fb is sb:
+                rendered |= {f for ad, f in a.fields if ad == H}
+                ctx.require(R7, d.has_leaf("upvar:1"), c.where(), "templates are rendered with the event's hook data", [SINGLE, "template-data"])
+            else:
+                # `.iter().map(|fmt| render_template(fmt, &data))`: the template is the closure's element, the elements are the receiver's
+                rt_closures.add(fb.key)
+                for u in closure_users(sb, fb.key):
+                    if a.has_leaf("param:2"):
+                        rendered |= {f for ad, f in arg_origins(u, 0).fields if ad == H}
+                caps = closure_capture_origins(sb, fb.key)
+                ctx.require(R7, d.has_leaf("upvar:") and any(x.has_leaf("upvar:1") for x in caps), c.where(), "templates are rendered with the event's hook data", [SINGLE, "template-data"])
     ctx.require(R7, {"args", "stdin", "stdout", "stderr"} <= rendered and "cmd" not in rendered, "%s:%s" % (sb.file, sb.line), "rendered hook fields: %s (expected args, stdin, stdout, stderr; not cmd)" % sorted(rendered), [SINGLE, "rendered-fields"])
     for c in sb.calls_to("async_process::Command::new"):
         a = arg_origins(c, 0)
         ctx.require(R7, (H, "cmd") in a.fields and not any(x.is_("acmed::template::render_template") for x in a.calls), c.where(), "the command is hook.cmd, verbatim", [SINGLE, "cmd"])
     for c in sb.calls_to("async_process::Command::args"):
         a = arg_origins(c, 1)
-        ctx.require(R7, any(x.is_("acmed::template::render_template") for x in a.calls) and not shrinkers_in(a), c.where(), "the arguments are the rendered hook.args, all of them, in order", [SINGLE, "args"])
+        ctx.require(R7, (any(x.is_("acmed::template::render_template") for x in a.calls) or any(("closure:%s" % k) in a.leaves for k in rt_closures)) and not shrinkers_in(a), c.where(), "the arguments are the rendered hook.args, all of them, in order", [SINGLE, "args"])
     for c in sb.calls_to("async_process::Command::envs"):
         a = arg_origins(c, 1, through=True)
         ctx.require(R7, any("get_env" in x.name for x in a.calls) and a.has_leaf("upvar:1"), c.where(), "the child's environment is the hook data's env", [SINGLE, "envs"])
@@ -356,3 +342,45 @@ def short(k):
     if " as " in k:
         return k.split(" as ")[0].lstrip("<").rsplit("::", 1)[1] + "::" + k.rsplit("::", 1)[1]
     return "::".join(k.split("::")[-2:])
+
+
+def status_rule(ctx, R2):
+    """shared with C05 (a challenge is reported ready only after its hooks SUCCEEDED): what call_single calls a success"""
+    prog = ctx.prog
+    sb = prog.async_body(SINGLE)
+    succ = sb.calls_to("std::process::ExitStatus::success")
+    ctx.floor(R2, "ExitStatus::success test", len(succ), 1)
+    okb, errb, fwd = result_return_kinds(sb)
+    af = [i for i in sb.live_blocks() if sb.term(i)["t"] == "switch" and sb.term(i)["dty"] == "bool" and ("acmed::hooks::Hook", "allow_failure") in origins(sb, sb.term(i)["discr"]).fields]
+    ctx.floor(R2, "branch on hook.allow_failure", len(af), 1)
+    if succ and af:
+        s_t, s_f = call_true_false_edges(sb, succ[0])
+        af_edges_false = []
+        af_edges_true = []
+        for i in af:
+            sl = origins(sb, sb.term(i)["discr"])
+            neg = "unop:Not" in sl.via
+            t, f = bool_edges(sb, i)
+            if neg:
+                t, f = f, t
+            af_edges_false.append((i, f))
+            af_edges_true.append((i, t))
+        st_polls = polls(sb, "async_process::Child::status")
+        st_any = [p.bb for p in sb.calls if p.fn == POLL and p.res and "async_process" in p.res and p.bb in sb.live_blocks()]
+        fail_blocks = [i for i in errb if succ[0].bb in sb.reachable(0) and i in sb.reachable_after(succ[0].bb)]
+        ctx.floor(R2, "failure result after the status test", len(fail_blocks), 1)
+        good, hit = unreachable_without(sb, fail_blocks, removed_edges=s_f, start=succ[0].bb)
+        ctx.require(R2, bool(s_f) and good, succ[0].where(), "the status-based failure is reached only when success() is false", [SINGLE, "fail-on-success"])
+        good, hit = unreachable_without(sb, fail_blocks, removed_edges=af_edges_false, start=succ[0].bb)
+        ctx.require(R2, bool(af_edges_false) and good, succ[0].where(), "… and only when allow_failure is false", [SINGLE, "fail-despite-allow"])
+        for (i, tg) in af_edges_false:
+            if i in sb.reachable_after(succ[0].bb):
+                r = sb.reachable([tg])
+                ctx.require(R2, not (set(okb) & r), where(sb, i), "an unsuccessful status without allow_failure never yields Ok", [SINGLE, "hard-failure-ignored"])
+        for (sbb, tg) in s_t:
+            r = sb.reachable([tg], removed_edges=[])
+            ctx.require(R2, not (set(fail_blocks) & r), where(sb, sbb), "a successful status never yields the failure result", [SINGLE, "success-fails"])
+        good, hit = unreachable_without(sb, okb, removed_nodes=st_any)
+        ctx.require(R2, bool(st_any) and good, "%s:%s" % (sb.file, sb.line), "call_single returns Ok only after the child's exit status was awaited", [SINGLE, "not-awaited"])
+
+
